@@ -521,6 +521,27 @@ theorem resolveImports_flat_kept_partial (vfs : Vfs) (who : Who) (href : Str) (s
     resolveImports vfs who href sheet = flatSpec vfs who href sheet :=
   resolveImports_eq_flatSpec vfs who href sheet out h
 
+/-- T19.3 [W1, every tree without @namespace rules]: for EVERY loaded import tree in which no sheet holds an
+@namespace rule — any nesting, any mix of available, unavailable, recursive, wrappable and unwrappable targets, any
+file system and fetcher — `resolveImports` IS the specification: the same sheet or the same exception (a URL that
+cannot be re-based), and the same fetcher calls in the same order. No hypothesis that the specification has a value. -/
+theorem resolveImports_is_flatSpec (vfs : Vfs) (who : Who) (href : Str) (sheet : Sheet)
+    (h : noNsL sheet = true) : resolveImports vfs who href sheet = flatSpec vfs who href sheet :=
+  resolveImports_eq_flatSpec_full vfs who href sheet h
+
+/-- … and so does every intermediate call with a target that already holds rules -/
+theorem resolveRules_is_groups_added (vfs : Vfs) (who : Who) (href : Str) (target sheet : Sheet)
+    (h : noNsL sheet = true) :
+    resolveRules vfs who href target sheet = (cascRules vfs who href sheet).mapOk (run target) :=
+  resolveRules_casc_full vfs who sheet href target h
+
+/-- the groups consist of @imports (the kept ones) and of rules that `add` appends: no @charset, no @namespace -/
+theorem groups_hold_imports_and_appended_rules (vfs : Vfs) (who : Who) (href : Str) (sheet c : Sheet)
+    (h : (cascRules vfs who href sheet).val = .ok c) : ∀ r ∈ c, isImp r = true ∨ appended r = true := by
+  intro r hr
+  have := cascRules_kind vfs who sheet href c h r hr
+  simpa [okKind] using this
+
 /-- … into an existing target: the groups are added one rule after the other (`run` = `target.add` in a loop) -/
 theorem resolveRules_adds_groups (vfs : Vfs) (who : Who) (href : Str) (target sheet c : Sheet)
     (h : (cascRules vfs who href sheet).val = .ok c) :
@@ -642,6 +663,12 @@ example :
         [.imp (cps "b.css") (cps "print") true (cps "http://h/css/b.css") [.page [] [] []],
          .style (cps "a") []]]).okMap (fun t => (t.map Rule.tag, importHrefs t))
       = some ([1, 2, 1, 4], [cps "b.css"]) := by decide +kernel
+
+/-- non-vacuity of `resolveImports_is_flatSpec`: the witness trees above hold no @namespace rule -/
+example : noNsL
+      [.imp (cps "a.css") mediaAll true (cps "http://h/a.css") [.style (cps "a") []],
+       .imp (cps "b.css") (cps "print") true (cps "http://h/b.css") [.page [] [] []],
+       .imp (cps "x.css") mediaAll false [] []] = true := by decide
 
 /-- non-vacuity of the group theorems: their hypotheses hold for the witness trees above -/
 example : cascRules [] .user (cps "http://h/b.css") [.page [] [] []] = ⟨.ok [.page [] [] []], []⟩ ∧
